@@ -9,7 +9,7 @@ import (
 )
 
 func init() {
-	props["C19"] = &propInfo{Level: "other", Explanation: "Decides the structural part of 'the client's connection state is consistent, bounded and Close is terminal': (R18.2) lockset of mpx.client (connecting, connectAttempt, conns.Store and every flag update happen under client.mu on every path from every entry point, constructor included once it has started the dial routine); (R19.1) flag pairing: wherever connected_ is set disconnected_ is unset in the same critical section and vice versa; (R19.2) Close is terminal: a connection is added to the set only behind a closed_.IsSet()==false test that was itself evaluated under the mutex in the same critical section, Close sets closed_ before it clears the set, and the locked slow path of conn() re-checks closed_ before dialling; (R19.3) the set grows on channels-target only behind num < max; (R19.4) connect() starts a dial routine only when none is pending. Not decided: the numeric back-off function (a non-linear function of the attempt number), reconnection after faults, quiescent invariants under real schedules.",
+	props["C19"] = &propInfo{Level: "other", Explanation: "Decides the structural part of 'the client's connection state is consistent, bounded and Close is terminal': (R18.2) lockset of mpx.client (connecting, connectAttempt, conns.Store and every flag update happen under client.mu on every path from every entry point, constructor included once it has started the dial routine); (R19.1) flag pairing: wherever connected_ is set disconnected_ is unset in the same critical section and vice versa; (R19.2) Close is terminal: a connection is added to the set only behind a closed_.IsSet()==false test that was itself evaluated under the mutex in the same critical section, Close sets closed_ before it clears the set, and the locked slow path of conn() re-checks closed_ before dialling; (R19.3) the set grows on channels-target only behind num < max; (R19.4) connect() starts a dial routine only when none is pending. (R19.5) the back-off function reconnectTimeout, a pure branch-free integer function, is evaluated by constant propagation with exact Go integer semantics for every attempt number (2..63 and the uniform class >= 64): within [25 ms, 1 s] and never decreasing. Not decided: reconnection after faults, quiescent invariants under real schedules.",
 		Trusted: []string{"async.MutFlag Set/Unset/IsSet semantics", "guarded-by table in rules_c18.go"}}
 
 	register(&Rule{ID: "R19.1", Props: []string{"C19"}, Floor: 4,
